@@ -6,7 +6,7 @@ for P in "$HERE"/benign/*.patch; do
   cp -a /repo/python /repo/testdata /repo/gherkin-languages.json "$SCR/repo/"
   (cd "$SCR/repo" && git init -q . && git apply "$P") || { echo "$(basename $P): patch does not apply"; rm -rf "$SCR"; continue; }
   for C in C11 C15 C17; do
-    OUT=$(cd "$HERE" && VERIF_REPO="$SCR/repo" ./check $C quick 2>&1); RC=$?
+    OUT=$(cd "$HERE" && VERIF_EVIDENCE_DIR="$SCR/evidence" VERIF_REPO="$SCR/repo" ./check $C quick 2>&1); RC=$?
     echo "$(basename $P .patch) $C exit=$RC $(echo "$OUT" | grep -E '^VIOLATION|^HARNESS|^  oracle' | head -3 | tr '\n' ' ' | cut -c1-300)"
   done
   rm -rf "$SCR"
